@@ -46,6 +46,21 @@ def enc_sdict_obj(s) -> str:
     return enc_sd(gen.plain(dict(s)), s.line_comments, s.block_comments, s.includes, s.expressions)
 
 
+def nest_as_sdict(d):
+    """every nested dict value becomes an SDict INSTANCE with tables of its own (that call every placeholder id a
+    duplicate of every other): a value is a value, the tables that count are those of the SDict the operation is called on"""
+    dictIO = _impl()
+    for k, v in list(d.items()):
+        if isinstance(v, dict):
+            sv = v if isinstance(v, dictIO.SDict) else dictIO.SDict(v)
+            sv.line_comments = {i: "// same" for i in list(range(0, 12)) + list(range(100, 140))}
+            sv.block_comments = {i: "/* same */" for i in list(range(0, 12)) + list(range(100, 140))}
+            sv.includes = {i: ("#include 'same'", "same", Path("/work/same")) for i in list(range(0, 12)) + list(range(100, 140))}
+            nest_as_sdict(sv)
+            dict.__setitem__(d, k, sv)
+    return d
+
+
 def mk_sdict(spec: dict):
     dictIO = _impl()
     s = dictIO.SDict(copy.deepcopy(spec["data"]))
@@ -53,6 +68,8 @@ def mk_sdict(spec: dict):
     s.block_comments = dict(spec.get("bc", {}))
     s.includes = {i: (v[0], v[1], Path(v[2])) for i, v in spec.get("inc", {}).items()}
     s.expressions = {i: {"expression": v[0], "name": v[1]} for i, v in spec.get("ex", {}).items()}
+    if spec.get("nested_sdict"):
+        nest_as_sdict(s)
     return s
 
 
@@ -85,7 +102,13 @@ def enc_op(op) -> str:
 
 
 def arg_value(arg):
-    return copy.deepcopy(arg[1]) if arg[0] == "plain" else mk_sdict(arg[1])
+    if arg[0] == "plain":
+        v = copy.deepcopy(arg[1])
+        return nest_as_sdict(v) if NEST_ARGS[0] else v
+    return mk_sdict(dict(arg[1], nested_sdict=True) if NEST_ARGS[0] else arg[1])
+
+
+NEST_ARGS = [False]       # set per case by the oracle / the trace (cases with "nested_sdict")
 
 
 def apply_impl(s, op):
@@ -201,7 +224,8 @@ def oracle(case: dict):
     if case.get("kind") == "ctor":
         return ctor_oracle(case)
     dictIO = _impl()
-    s = mk_sdict(case["init"])
+    NEST_ARGS[0] = bool(case.get("nested_sdict"))
+    s = mk_sdict(dict(case["init"], nested_sdict=NEST_ARGS[0]))
     d = copy.deepcopy(case["init"]["data"])
     merged_args = []     # every argument ever passed to merge(): none may change, not by a LATER operation on the SDict either
     for step, op in enumerate(case["ops"]):
@@ -405,7 +429,7 @@ def orphan_case(rng):
                 arg[1]["data"] = add_orphans(rng, arg[1]["data"])
             op = (op[0], arg) + tuple(op[2:])
         ops.append(op)
-    return {"init": init, "ops": ops, "ordinary": True, "placeholders": False, "orphans": True}
+    return {"init": init, "ops": ops, "ordinary": True, "placeholders": False, "orphans": True, "nested_sdict": rng.random() < 0.5}
 
 
 def run_histories(ctx, cases):
@@ -413,7 +437,8 @@ def run_histories(ctx, cases):
     mout = wire.run_model_sharded(lines)
     for c, ml in zip(cases, mout):
         # implementation trace in the model's syntax
-        s = mk_sdict(c["init"])
+        NEST_ARGS[0] = bool(c.get("nested_sdict"))
+        s = mk_sdict(dict(c["init"], nested_sdict=NEST_ARGS[0]))
         parts = [f"l{len(c['ops'])}"]
         for op in c["ops"]:
             try:
